@@ -28,7 +28,7 @@ CHECK_FN = "check_case"
 INPUT_TYPE = "tcase"
 COQCHK = True
 
-DEADLINE = 2.5          # seconds before a blocked select/join/wait is declared a hang
+DEADLINE = 8.0          # seconds before a blocked select/join/wait is declared a hang
 _hangs = [0]            # after a few hangs in one run (a broken tree) stop paying the full deadline every time
 
 
@@ -54,6 +54,10 @@ class Recorder:
         self.t0 = time.time()
         self.failed = None
         self.jit = True
+        self.gate = False                      # hold the selector right after it took a snapshot
+        self.gated = real_threading.Event()
+        self.gate_release = real_threading.Event()
+        self.sel_tid = None
 
     # ---- canonical names ----
     def fdid(self, fd):
@@ -119,6 +123,13 @@ def make_shims(R):
         def __exit__(self, *a):
             R.rec(("Release",), cond=True)
             r = self.c.__exit__(*a)
+            if R.gate and real_threading.get_ident() == R.sel_tid:
+                # scenario control only: keep the selector between `with` and select() for a while
+                R.gate = False
+                R.gated.set()
+                end = time.time() + deadline()
+                while not (R.gate_release.is_set() or R.st._closing_selector) and time.time() < end:
+                    time.sleep(0.0003)
             R.jitter()
             return r
 
@@ -282,6 +293,7 @@ class World:
         self.peers = []
         self.ncb = 0
         self.cblog = []
+        self.fired = {}
         for i in range(NSOCK):
             a, b = real_socket_mod.socketpair()
             a.setblocking(False)
@@ -342,6 +354,7 @@ class World:
             return
         R.rec(("Callback", k, i), regs=True)
         self.cblog.append([G.Tag(k), i])
+        self.fired[(k, i)] = self.fired.get((k, i), 0) + 1
         self.ncb += 1
         st = self.st
         if self.ncb > MAX_CALLBACKS:
@@ -365,6 +378,46 @@ class World:
         elif kind == "close":
             if self.R.active:
                 st.close()
+        elif kind == "sync":
+            for sub in op[1]:
+                self.do(sub)
+        elif kind == "park":
+            # busy event loop: do not return to the loop until the selector thread has reported and
+            # parked itself on the condition variable (or a generous time has passed)
+            R = self.R
+            end = time.time() + min(3.0, deadline())
+            while time.time() < end:
+                with R.lock:
+                    last = None
+                    for tid, lab, _, _ in reversed(R.events):
+                        if tid == R.sel_tid:
+                            last = lab[0]
+                            break
+                if last == "Wait":
+                    break
+                time.sleep(0.0005)
+        elif kind == "gate_on":
+            self.R.gate = True
+        elif kind == "gate_off":
+            self.R.gate_release.set()
+        else:
+            raise ValueError(op)
+
+    async def ado(self, op):
+        """operations that need the event loop to keep running while they wait"""
+        R = self.R
+        if op[0] == "wait_gated":
+            end = time.time() + min(3.0, deadline())
+            while not R.gated.is_set() and time.time() < end:
+                await asyncio.sleep(0.0005)
+        elif op[0] == "expect":
+            key = (op[1], op[2])
+            end = time.time() + deadline()
+            while self.fired.get(key, 0) < 1 and R.active and not R.failed:
+                if time.time() > end:
+                    R.failed = "readiness-not-dispatched"
+                    break
+                await asyncio.sleep(0.0005)
         else:
             raise ValueError(op)
 
@@ -374,7 +427,6 @@ def execute(case):
     R = Recorder(case["seed"])
     R.jit = case.get("jitter", True)
     R.loop_tid = real_threading.get_ident()
-    R.sel_tid = None
     W = World(R, case)
     th, so, se = make_shims(R)
     saved = (tpa.threading, tpa.socket, tpa.select)
@@ -404,6 +456,11 @@ def execute(case):
                 break
             if op[0] == "sleep":
                 await asyncio.sleep(op[1] / 1000.0)
+                continue
+            if op[0] in ("wait_gated", "expect"):
+                await W.ado(op)
+                if R.failed:
+                    break
                 continue
             W.do(op)
             x = rr.random() if R.jit else 0.0
@@ -621,6 +678,13 @@ def corpus_cases():
            {"r1": [["rm", "r", 2], ["env", "r", 1, False]], "r2": [["rm", "r", 1], ["env", "r", 2, False]]}, seed=5),
         # close immediately after registration changes (selector may be anywhere)
         mk([], [["add", "r", 1], ["add", "w", 1], ["rm", "r", 1], ["close"]], seed=6, settle=0),
+        # close() while the selector is parked on the condition variable with its report still queued
+        mk([["add", "r", 1]], [["sleep", 3], ["sync", [["env", "r", 1, True], ["park"], ["close"]]]],
+           {"r1": [["env", "r", 1, False]]}, seed=8),
+        # registration change in the window between handing over the snapshot and select(): must be woken
+        mk([["add", "r", 1]], [["sleep", 3], ["gate_on"], ["env", "r", 1, True], ["wait_gated"],
+                               ["sync", [["env", "r", 2, True], ["add", "r", 2]]], ["gate_off"], ["expect", "r", 2]],
+           {"r1": [["env", "r", 1, False]], "r2": [["env", "r", 2, False]]}, seed=9),
         # level-triggered: callback does nothing, fd stays ready; bounded by MAX_CALLBACKS
         mk([], [["env", "r", 3, True], ["add", "r", 3], ["sleep", 4]], {"r3": []}, seed=7),
     ]
@@ -700,6 +764,7 @@ def gen_cases(rng, tier):
         else:
             ops = [["sleep", 3]]
         out.append(mk(pre, ops, react, seed=rng.randrange(10 ** 6), settle=rng.choice([1, 3])))
+    out += handshake_cases(rng, 4 if tier == "quick" else 20)
     # small-scope enumeration: every sequence of <= L basic operations on one fd, default reactions,
     # each under several jitter seeds
     basic = [["add", "r", 1], ["rm", "r", 1], ["add", "w", 1], ["rm", "w", 1], ["env", "r", 1, True], ["close"]]
@@ -713,6 +778,37 @@ def gen_cases(rng, tier):
     for s in seqs:
         for r in range(reps):
             out.append(mk([], [list(o) for o in s], {"r1": [["env", "r", 1, False]]}, seed=rng.randrange(10 ** 6), settle=r))
+    return out
+
+
+def handshake_cases(rng, reps):
+    """structured scenarios for the two handshakes: close() against a selector that is parked on the
+    condition / inside select / just woken, and registration changes against an in-flight report"""
+    out = []
+    drain = {"r1": [["env", "r", 1, False]], "r2": [["env", "r", 2, False]], "w2": [["rm", "w", 2]], "w3": [["rm", "w", 3]]}
+    for _ in range(reps):
+        sd = lambda: rng.randrange(10 ** 6)
+        # --- close() while parked (report caused by an fd / by the waker / plus late changes)
+        out.append(mk([["add", "r", 1]], [["sleep", 3], ["sync", [["env", "r", 1, True], ["park"], ["close"]]]], drain, seed=sd()))
+        out.append(mk([["add", "r", 1]], [["sleep", 3], ["sync", [["add", "r", 2], ["park"], ["close"]]]], drain, seed=sd()))
+        out.append(mk([["add", "r", 1]], [["sleep", 3], ["sync", [["env", "r", 1, True], ["park"], ["add", "w", 2], ["rm", "r", 1], ["close"]]]],
+                      drain, seed=sd()))
+        # --- close() right after the selector was re-armed (it may be anywhere between wait() and select())
+        out.append(mk([["add", "r", 1]], [["sleep", 2], ["env", "r", 1, True], ["sleep", rng.choice([0, 0, 1])], ["close"]], drain, seed=sd(), settle=0))
+        # --- close() while the selector is held between the with-block and select()
+        out.append(mk([["add", "r", 1]], [["sleep", 3], ["gate_on"], ["env", "r", 1, True], ["wait_gated"],
+                                          ["sync", [["close"]]]], drain, seed=sd()))
+        # --- registration changes in the window between handing over the snapshot and select()
+        out.append(mk([["add", "r", 1]], [["sleep", 3], ["gate_on"], ["env", "r", 1, True], ["wait_gated"],
+                                          ["sync", [["env", "r", 2, True], ["add", "r", 2]]], ["gate_off"], ["expect", "r", 2]], drain, seed=sd()))
+        out.append(mk([["add", "r", 1]], [["sleep", 3], ["gate_on"], ["env", "r", 1, True], ["wait_gated"],
+                                          ["add", "w", 3], ["gate_off"], ["expect", "w", 3]], drain, seed=sd()))
+        # --- registration change while the report is in flight (selector parked, report queued)
+        out.append(mk([["add", "r", 1]], [["sleep", 3], ["sync", [["env", "r", 1, True], ["park"], ["env", "r", 2, True], ["add", "r", 2]]],
+                                          ["expect", "r", 2], ["expect", "r", 1]], drain, seed=sd()))
+        # --- plain eventual dispatch
+        out.append(mk([], [["add", "r", 1], ["sleep", rng.choice([0, 2])], ["env", "r", 1, True], ["expect", "r", 1]], drain, seed=sd()))
+        out.append(mk([], [["sleep", 2], ["add", "w", 2], ["expect", "w", 2]], drain, seed=sd()))
     return out
 
 
@@ -736,15 +832,21 @@ def classify(case, obs):
         yield "selector-woken-by-notify"
     if "ThreadStart" not in labs:
         yield "closed-before-start"
-    # was close() entered while the selector was inside select()?
-    insel = False
-    for _, lab, _, _ in tr:
-        if lab[0] == "SelectCall":
-            insel = True
-        elif lab[0] == "SelectRet":
-            insel = False
+    # where was the selector thread when close() was entered / when a registration changed?
+    last = None
+    seen = set()
+    for t, lab, _, _ in tr:
+        if t == "S":
+            last = lab[0]
         elif lab[0] == "CloseEnter":
-            yield "close-while-selecting" if insel else "close-while-not-selecting"
+            yield "close-while-" + {"SelectCall": "selecting", "Wait": "parked-on-condition", "Release": "in-handover-window",
+                                    None: "not-started"}.get(last, "elsewhere")
+        elif lab[0] in ("Add", "Remove") and lab[2] != 0:
+            w = {"SelectCall": "while-selecting", "Wait": "while-parked-or-report-in-flight",
+                 "Release": "in-handover-window"}.get(last)
+            if w and w not in seen:
+                seen.add(w)
+                yield "change-" + w
     if isinstance(obs, list) and obs and obs[0] != "accepted":
         yield "impl-failed"
 
@@ -759,12 +861,14 @@ LEVEL_TEXT = ("Machine-checked (Coq) invariants of a two-thread transition syste
               "condition variable with its lock, _select_args, _closing_selector, waker socketpair, queued _handle_select calls, fd readiness as "
               "environment steps), proved for ALL interleavings and unbounded fds/registration changes by induction over step lists; tied to "
               "the code by recording real two-thread executions under randomised delays and replaying every recorded event through the model's "
-              "step relation (trace inclusion) inside coqc.")
+              "step relation (trace inclusion) inside coqc. Bounded-response theorems: close() returns within 38 internal steps from any state "
+              "inside close(); a ready registered fd is dispatched within dist(s) internal steps when user code and environment are quiet.")
 LEVEL_NOTE = ("Trusted: the recorder (shims for select/socket/threading as seen by tornado.platform.asyncio, recording subclass) and that "
               "its record order is a linearisation of the real order (records are made under the condition's lock, or under a trace lock "
               "atomically with the socket/select effect). Preemption inside a single CPython statement (between the modelled atomic actions) "
               "is not exhibited by the model; attribute reads/writes of _select_args/_closing_selector happen under the lock so merging them "
-              "with the neighbouring lock event is sound. Eventual dispatch is proved as invariant + progress (no temporal logic).")
+              "with the neighbouring lock event is sound. Eventual dispatch is a bounded-response theorem for quiet user code/environment; "
+              "with unboundedly many concurrent registrations only invariant + progress is proved.")
 TECHNIQUE = "Coq proof (inductive invariants over all interleavings, progress and ranking arguments) + recorded-trace inclusion via vm_compute"
 TRUSTED_BASE = [
     "harness/props/c40.py recorder: shims for `select`, `socket`, `threading` inside tornado.platform.asyncio, wrapper of loop.call_soon_threadsafe, "
@@ -777,5 +881,6 @@ ASSUMPTIONS = ["fds registered with the selector stay open while registered (no 
                "close() is called from top-level event-loop code, not from inside an fd callback"]
 RULE = ("random scenario scripts (add/remove reader/writer on up to 3 socketpairs, readiness changes, sleeps, close; random callback reactions incl. "
         "removing other fds, re-adding, level-triggered re-fire) + batches of 2-3 fds ready at once whose callbacks unregister each other "
-        "+ every operation sequence of length <= L (2 quick, 3 thorough) on one fd; each executed on a real "
+        "+ structured handshake scenarios (close vs selector parked / in handover window / selecting; registration change in the handover window "
+        "or with a report in flight; expected dispatch with deadline) + every operation sequence of length <= L (2 quick, 3 thorough) on one fd; each executed on a real "
         "SelectorThread under seeded random delays; distinct by the recorded (thread,label) sequence; non-trivial = trace of >= 12 events")
